@@ -415,7 +415,7 @@ C12_H += [
     for l in (0, 1, 7, 8, 9, 16, 19)
 ]
 PROPS["C12"] = {
-    "inject": [("src/lib.rs", "c12_aead"), ("src/lib.rs", "c12_s2k"), ("src/crypto/ecdh.rs", "c12_ecdh")],
+    "inject": [("src/lib.rs", "c12_aead"), ("src/lib.rs", "c12_s2k"), ("src/crypto/ecdh.rs", "c12_ecdh"), ("src/crypto/sym/encryptor.rs", "c09_cfb")],
     "mem_gb": 14,
     "level_text": "Bounded model checking of the real SEIPDv2 stream writer against an independent RFC 9580 5.13.2 schedule (per-chunk nonce "
                   "= IV||index, AD = info, final AD = info||total octets, info = D2 02 cipher aead chunk), with the AEAD primitive as a model "
@@ -550,6 +550,12 @@ PROPS["C03"] = {
         H("c03_error_state_is_sticky", "c03_mdc", "quick", 300, "read()/fill_inner() from the error state: always Err, state unchanged (no clean end of stream, no octet released)", MDC_F, "consumer buffer length symbolic 0..4"),
     ],
 }
+
+PROPS["C12"]["harnesses"] = PROPS["C12"]["harnesses"] + [
+    H("c12_seipdv1_prefix_layout", "c09_cfb", "quick", 900, "SEIPDv1 StreamEncryptorInner::new with an RNG delivering arbitrary octets (CFB = identity): prefix = 16 random octets + repetition of the last two (RFC 9580 5.13.1 quick check), 18 octets, initial state Prefix",
+      ["crypto::sym::encryptor::StreamEncryptorInner::<Aes128,&[u8]>::new"], "16 symbolic RNG octets"),
+]
+PROPS["C12"]["assumptions"] = PROPS["C12"]["assumptions"] + ["c12_seipdv1_prefix_layout: cfb_mode::BufEncryptor::encrypt and sha1 compression are no-ops; RNG = arbitrary octets"]
 
 # C04 also runs the hostile-input parser harnesses of C17/C05/C10: every one of them feeds arbitrary octets to a real
 # parser and Kani reports any reachable panic (index, slice, overflow, unwrap, unreachable) as a failed check, so
